@@ -3,6 +3,110 @@ use crate::{
 	object_container_file_encoding::CompressionCodec,
 };
 
+/// Verification hook H4 (only with `--cfg ten0_serde_avro_fast_verif`): the capacity of the
+/// `BufReader` that sits between the deserializer and the streaming decompressors can be
+/// overridden, and every read the `BufReader` makes on the decompressor (as well as the final
+/// "drive to end" read) is recorded in a thread-local trace.
+#[cfg(ten0_serde_avro_fast_verif)]
+#[allow(dead_code, missing_docs)]
+pub mod verif_h4 {
+	use std::cell::{Cell, RefCell};
+
+	#[derive(Clone, Copy, Debug, PartialEq, Eq)]
+	pub enum Event {
+		/// A block state with a streaming decompressor has been created
+		BlockStart {
+			/// Size in bytes of the (compressed) block
+			block_size: usize,
+			/// Capacity of the `BufReader`
+			capacity: usize,
+		},
+		/// One `read` call on the decompressor
+		DecoderRead {
+			/// Length of the destination slice
+			requested: usize,
+			/// What the read returned (`None` = the read returned `Err`)
+			produced: Option<usize>,
+			/// Number of bytes the underlying `Take` still allows after the read
+			limit_left: u64,
+		},
+		/// The one-byte read that drives the decompressor to the end of the block
+		EndCheck {
+			/// Number of bytes buffered in the `BufReader` before the one-byte read
+			buffered: usize,
+			/// What the one-byte read returned (`None` = the read returned `Err`)
+			read: Option<usize>,
+			/// Number of bytes the underlying `Take` still allows after the read
+			limit_left: u64,
+		},
+	}
+
+	thread_local! {
+		pub(super) static BUF_CAPACITY: Cell<Option<usize>> = const { Cell::new(None) };
+		static TRACE: RefCell<Vec<Event>> = const { RefCell::new(Vec::new()) };
+	}
+	/// Overrides (for the current thread) the capacity of the `BufReader` of the streaming
+	/// decompressors (`None` = the default of `std`)
+	pub fn set_buf_capacity(capacity: Option<usize>) {
+		BUF_CAPACITY.with(|c| c.set(capacity));
+	}
+	/// Returns and clears the trace of the current thread
+	pub fn take_trace() -> Vec<Event> {
+		TRACE.with(|t| std::mem::take(&mut *t.borrow_mut()))
+	}
+	pub(super) fn record(event: Event) {
+		TRACE.with(|t| {
+			let mut t = t.borrow_mut();
+			// bounded: a trace nobody takes does not grow forever
+			if t.len() < (1 << 16) {
+				t.push(event);
+			}
+		});
+	}
+}
+
+/// Verification hook H4: rebuilds the (still unused, hence empty) `BufReader` of a freshly created block state
+/// with the overridden capacity, and records the start of the block
+#[cfg(ten0_serde_avro_fast_verif)]
+impl<'s, R: de::read::take::Take> DecompressionState<'s, R> {
+	pub(super) fn verif_h4_rebuffer(self, block_size: usize) -> Self {
+		match self {
+			#[cfg(any(
+				feature = "deflate",
+				feature = "bzip2",
+				feature = "xz",
+				feature = "zstandard"
+			))]
+			DecompressionState::BufReader {
+				deserializer_state,
+				decompression_buffer,
+			} => {
+				let (reader, config) = deserializer_state.into_inner();
+				let buf_reader = reader.into_inner();
+				let buf_reader = match verif_h4::BUF_CAPACITY.with(|c| c.get()) {
+					None => buf_reader,
+					Some(capacity) => {
+						assert!(buf_reader.buffer().is_empty());
+						std::io::BufReader::with_capacity(capacity, buf_reader.into_inner())
+					}
+				};
+				verif_h4::record(verif_h4::Event::BlockStart {
+					block_size,
+					capacity: buf_reader.capacity(),
+				});
+				DecompressionState::BufReader {
+					deserializer_state: de::DeserializerState::with_config(
+						de::read::ReaderRead::new(buf_reader),
+						config,
+					),
+					decompression_buffer,
+				}
+			}
+			other => other,
+		}
+	}
+}
+
 impl CompressionCodec {
 	pub(super) fn state<'de, 's, R>(
 		self,
@@ -217,13 +321,27 @@ impl<'s, R: de::read::take::Take> DecompressionState<'s, R> {
 				// left in the block.
 				// (See also https://github.com/gyscos/zstd-rs/issues/255)
 				let mut drive_reader_to_end_buf = [0];
+				#[cfg(ten0_serde_avro_fast_verif)]
+				let verif_buffered = buf_reader.buffer().len();
 				let read = std::io::Read::read(&mut buf_reader, &mut drive_reader_to_end_buf)
 					.map_err(|e| {
+						#[cfg(ten0_serde_avro_fast_verif)]
+						verif_h4::record(verif_h4::Event::EndCheck {
+							buffered: verif_buffered,
+							read: None,
+							limit_left: buf_reader.get_ref().verif_limit_left(),
+						});
 						de::DeError::custom_io(
 							"Decompression error when driving decompressor to end",
 							e,
 						)
 					})?;
+				#[cfg(ten0_serde_avro_fast_verif)]
+				verif_h4::record(verif_h4::Event::EndCheck {
+					buffered: verif_buffered,
+					read: Some(read),
+					limit_left: buf_reader.get_ref().verif_limit_left(),
+				});
 				if read != 0 {
 					return Err(de::DeError::new(
 						"Decompression error: There's decompressed data left in the \
@@ -279,11 +397,46 @@ macro_rules! dispatch {
 		}
 	};
 }
+#[cfg(not(ten0_serde_avro_fast_verif))]
 impl<R: std::io::BufRead> std::io::Read for DecompressionReaderForBufReader<R> {
 	fn read(&mut self, buf: &mut [u8]) -> std::io::Result<usize> {
 		dispatch!(self, read(buf))
 	}
 	fn read_vectored(&mut self, bufs: &mut [std::io::IoSliceMut<'_>]) -> std::io::Result<usize> {
 		dispatch!(self, read_vectored(bufs))
+	}
+}
+/// Same as above, additionally recording every `read` in the trace of hook H4
+#[cfg(ten0_serde_avro_fast_verif)]
+impl<R: std::io::BufRead + IntoLeftAfterTake> std::io::Read for DecompressionReaderForBufReader<R> {
+	fn read(&mut self, buf: &mut [u8]) -> std::io::Result<usize> {
+		let res = dispatch!(self, read(buf));
+		verif_h4::record(verif_h4::Event::DecoderRead {
+			requested: buf.len(),
+			produced: res.as_ref().ok().copied(),
+			limit_left: self.verif_limit_left(),
+		});
+		res
+	}
+	fn read_vectored(&mut self, bufs: &mut [std::io::IoSliceMut<'_>]) -> std::io::Result<usize> {
+		dispatch!(self, read_vectored(bufs))
+	}
+}
+#[cfg(ten0_serde_avro_fast_verif)]
+impl<R: std::io::BufRead + IntoLeftAfterTake> DecompressionReaderForBufReader<R> {
+	/// Number of bytes the `Take` under the decompressor still allows
+	fn verif_limit_left(&self) -> u64 {
+		match self {
+			#[cfg(feature = "deflate")]
+			DecompressionReaderForBufReader::Deflate(reader) => reader.get_ref().verif_limit_left(),
+			#[cfg(feature = "bzip2")]
+			DecompressionReaderForBufReader::Bzip2(reader) => reader.get_ref().verif_limit_left(),
+			#[cfg(feature = "xz")]
+			DecompressionReaderForBufReader::Xz(reader) => reader.get_ref().verif_limit_left(),
+			#[cfg(feature = "zstandard")]
+			DecompressionReaderForBufReader::Zstandard(reader) => {
+				reader.get_ref().verif_limit_left()
+			}
+		}
 	}
 }
